@@ -806,6 +806,134 @@ fn hist_lowalt() -> BoxedStrategy<Hist> {
         .boxed()
 }
 
+// ------------------------------------------------------------------------------------------------
+// End to end: jet1090's own loop around decode_position (crates/jet1090/src/main.rs: one reference per source, keyed
+// by the serial of the first reception; TIS-B under cf.aa). The binary stamps receptions with the wall clock, so the
+// scenario plays in real time: slow traffic (<= 100 kt) for a few seconds, which keeps every statement independent of
+// how the receptions are spread in time (two reports of one aircraft are never more than a few hundred metres apart).
+
+#[derive(Clone, Debug)]
+pub struct E2eAircraft {
+    pub icao: u32,
+    pub df18: bool,
+    pub surface: bool,
+    pub source: u8,
+    pub bearing: f64,
+    pub dist_nm: f64,
+    pub speed_kt: f64,
+    pub n: u8,
+    pub odd_first: bool,
+}
+
+#[derive(Clone, Debug)]
+pub struct E2eCase {
+    pub refs: Vec<(f64, f64)>,
+    pub aircraft: Vec<E2eAircraft>,
+    pub update_position: bool,
+    pub via_config: bool,
+}
+
+/// (scenario, truth per frame)
+pub fn e2e_scenario(c: &E2eCase) -> (crate::e2e::Scenario, std::collections::BTreeMap<String, (f64, f64, bool)>) {
+    let mut truth = std::collections::BTreeMap::new();
+    let mut sends: Vec<(f64, crate::e2e::Send)> = vec![];
+    for (k, a) in c.aircraft.iter().enumerate() {
+        let src = a.source as usize % c.refs.len();
+        let r = c.refs[src];
+        let range = if a.surface { 30.0 } else { 100.0 };
+        let start = destination(r.0, r.1, a.bearing, a.dist_nm.clamp(0.0, 1.0) * range * NM);
+        let v = if a.surface { a.speed_kt.min(20.0) } else { a.speed_kt.min(100.0) } * KT;
+        for i in 0..a.n.max(2) {
+            let t = i as f64 * 0.04 + k as f64 * 0.007;
+            let (lat, lon) = destination(start.0, start.1, (a.bearing * 3.0) % 360.0, v * t);
+            let rep = Report { ac: k, icao: a.icao, ts: t, arrival: t, lat, lon, surface: a.surface, odd: (i % 2 == 1) != a.odd_first, df18: a.df18, alt_ft: 6_000 + 25 * (k as i32), filler: 0, only_filler: false };
+            let frame = frame_of(&rep);
+            truth.insert(hex::encode(&frame), (lat, lon, a.surface));
+            sends.push((t, crate::e2e::Send { source: src, frame, pause_ms: 0, cut: 0 }));
+        }
+    }
+    sends.sort_by(|a, b| a.0.partial_cmp(&b.0).unwrap());
+    let mut out = vec![];
+    for i in 0..sends.len() {
+        let mut s = sends[i].1.clone();
+        let gap = if i + 1 < sends.len() { sends[i + 1].0 - sends[i].0 } else { 0.0 };
+        s.pause_ms = (gap * 1000.0).round() as u32;
+        out.push(s);
+    }
+    let sc = crate::e2e::Scenario { references: c.refs.iter().map(|r| Some(*r)).collect(), sends: out, df_filter: None, aircraft_filter: None, dedup_ms: 60, update_position: c.update_position, with_file: false, via_config: c.via_config };
+    (sc, truth)
+}
+
+pub fn judge_e2e(ctx: &Ctx, out: &crate::e2e::Outcome, truth: &std::collections::BTreeMap<String, (f64, f64, bool)>, rep: &Value) -> Check {
+    let fail = |sig: &str, d: String| Failure::new(format!("c06:e2e:{sig}"), d, rep.clone());
+    let mut npos = 0;
+    for l in &out.lines {
+        let v: Value = serde_json::from_str(l).map_err(|e| fail("malformed-line", format!("{e}: {l}")))?;
+        let Some((tla, tlo, surface)) = v["frame"].as_str().and_then(|f| truth.get(f)) else { continue };
+        match (v["latitude"].as_f64(), v["longitude"].as_f64()) {
+            (Some(la), Some(lo)) => {
+                npos += 1;
+                let d = haversine_m(*tla, *tlo, la, lo);
+                if !(d <= TOL_M) {
+                    return Err(fail(&format!("wrong-position:{}", if *surface { "surface" } else { "airborne" }), format!("jet1090 prints {l}: encoded from ({tla:.6}, {tlo:.6}), {d:.0} m off")));
+                }
+            }
+            (None, None) => {}
+            _ => return Err(fail("half-position", l.clone())),
+        }
+    }
+    // the table serves the last position of each aircraft: it must be one of its own
+    for e in out.table.as_array().cloned().unwrap_or_default() {
+        if let (Some(la), Some(lo), Some(icao)) = (e["latitude"].as_f64(), e["longitude"].as_f64(), e["icao24"].as_str()) {
+            let own = out.lines.iter().filter_map(|l| serde_json::from_str::<Value>(l).ok()).filter(|v| v["icao24"] == icao).filter_map(|v| v["frame"].as_str().and_then(|f| truth.get(f)).copied()).any(|(tla, tlo, _)| haversine_m(tla, tlo, la, lo) <= TOL_M);
+            if !own && truth.values().next().is_some() && icao != format!("{:06x}", crate::e2e::MARKER_ADDR) {
+                return Err(fail("table-position-not-the-aircraft's", format!("/all shows {icao} at ({la}, {lo}), which is not within 25 m of any position that aircraft reported")));
+            }
+        }
+    }
+    if npos > 0 {
+        ctx.class("end-to-end scenario with positions");
+        ctx.nontrivial(h64(&("e2e", rep.to_string())));
+    } else {
+        ctx.class("end-to-end scenario without any position");
+    }
+    Ok(())
+}
+
+pub fn check_e2e(ctx: &Ctx, env: &crate::e2e::Env, c: &E2eCase, tag: &str) -> Check {
+    ctx.eval();
+    let (sc, truth) = e2e_scenario(c);
+    let rep = json!({"kind": "e2e", "scenario": crate::e2e::scenario_json(&sc), "truth": truth.iter().map(|(f, t)| json!([f, t.0, t.1, t.2])).collect::<Vec<_>>()});
+    replay_e2e(ctx, env, &sc, &truth, &rep, tag)
+}
+
+pub fn replay_e2e(ctx: &Ctx, env: &crate::e2e::Env, sc: &crate::e2e::Scenario, truth: &std::collections::BTreeMap<String, (f64, f64, bool)>, rep: &Value, tag: &str) -> Check {
+    match crate::e2e::play_twice(env, sc, tag) {
+        Err(crate::e2e::Fail::Skip(why)) => {
+            ctx.exclude(&format!("end-to-end scenario not judged: {}", why.split(':').next().unwrap_or("")));
+            Ok(())
+        }
+        Err(crate::e2e::Fail::Died(why)) => Err(Failure::new("c06:e2e:jet1090-died", format!("jet1090 {why} (twice)"), rep.clone())),
+        Ok(out) => judge_e2e(ctx, &out, truth, rep),
+    }
+}
+
+fn e2e_case() -> impl Strategy<Value = E2eCase> {
+    let ac = (0x100000u32..0xfffff0, any::<bool>(), any::<bool>(), 0u8..2, 0.0f64..360.0, 0.0f64..1.0, 0.0f64..100.0, 4u8..24, any::<bool>()).prop_map(|(icao, df18, surface, source, bearing, dist_nm, speed_kt, n, odd_first)| E2eAircraft { icao, df18, surface, source, bearing, dist_nm, speed_kt, n, odd_first });
+    (point(), 1usize..=2, 20.0f64..60.0, proptest::collection::vec(ac, 1..5), any::<bool>(), any::<bool>()).prop_map(|(p, nsrc, dlon, mut aircraft, update_position, via_config)| {
+        let lat = p.lat.clamp(-70.0, 70.0);
+        let mut refs = vec![(lat, p.lon)];
+        if nsrc == 2 {
+            // the second receiver is far away: a surface report decoded against the wrong receiver lands in another zone
+            refs.push(((lat + 7.0).clamp(-75.0, 75.0), wrap180(p.lon + dlon)));
+        }
+        for (i, a) in aircraft.iter_mut().enumerate() {
+            a.icao = (a.icao & 0xfffff0) | i as u32;
+        }
+        E2eCase { refs, aircraft, update_position, via_config }
+    })
+}
+
 fn classes(ctx: &Ctx, what: &str, h: &Hist) {
     ctx.class(&format!("{what} scenario, {} aircraft", h.plans.len()));
     for p in &h.plans {
@@ -814,7 +942,7 @@ fn classes(ctx: &Ctx, what: &str, h: &Hist) {
 }
 
 pub fn run(ctx: &Ctx) {
-    ctx.set_rule("histories: 1-4 aircraft, each a plan (start from the C04 strata incl. flights along the 87th parallel, bearing, speed in {0,140,450,700, uniform 0-700} kt, 1-6 segments of 1-29 reports every 0.4-0.6 s separated by gaps from {9.5, 9.99, 10.01, 10.5, 12, 20, 30, 60, 170, 179.9, 180.1, 190, 470, 600, 1000, 1700, 1790, 1860, 2000, 7200 s}, mostly alternating parity, loss levels 0/20/60/90 %, duplicate receptions +<=0.3 s, neighbours delivered in swapped order across any gap (truthful timestamps) or with exchanged timestamps when < 1.5 s apart, DF17 (any capability) or DF18 (any control field) carriers, every airborne (9-18, 20-22) and surface (5-8) type code, altitudes unavailable / 25 ft / Gillham coded, any movement / track / status bits, a quarter of the reports followed by a non-position message of the same aircraft (velocity, identification, status, operational status, target state, type code 0, DF11, DF4) and such messages also arriving during gaps, parity-selective loss (8-67 consecutive reports lose every report of one parity), addresses independent or from one family differing in a few bits / byte order); the airborne alias family 'gap just long enough to fly k latitude / m longitude zones (+-40 km) at <= 690 kt, then airborne again'; surface scenarios add landings, take-offs and the adversarial 'last airborne fix exactly k surface zones away, long gap, then surface' family, with a receiver reference within 36 NM of every surface site and |lat| <= 80; 'hidden reference' scenarios are surface scenarios in which the decoder is given no receiver position at all; 'low altitude' scenarios put every aircraft on one common site, give airborne reports within 15 NM of it altitudes below 1000 ft and let the decoder move the receiver reference to such fixes (as decode1090 always does). Frames from the independent encoder through Message::try_from and decode_positions; and as a JSONL file through the real decode1090 binary (its own loop around decode_position) and, split into chunks, through the Python binding's decode_1090t_vec (positions within 25 m and equal to the library's). Oracle: every attached position within 25 m of the encoded one; per-aircraft outputs bit-identical with and without the other aircraft (fixed reference). Non-trivial = history with >= 1 positioned report and (a gap > 9 s or >= 2 aircraft); distinct by hash of the report list.");
+    ctx.set_rule("histories: 1-4 aircraft, each a plan (start from the C04 strata incl. flights along the 87th parallel, bearing, speed in {0,140,450,700, uniform 0-700} kt, 1-6 segments of 1-29 reports every 0.4-0.6 s separated by gaps from {9.5, 9.99, 10.01, 10.5, 12, 20, 30, 60, 170, 179.9, 180.1, 190, 470, 600, 1000, 1700, 1790, 1860, 2000, 7200 s}, mostly alternating parity, loss levels 0/20/60/90 %, duplicate receptions +<=0.3 s, neighbours delivered in swapped order across any gap (truthful timestamps) or with exchanged timestamps when < 1.5 s apart, DF17 (any capability) or DF18 (any control field) carriers, every airborne (9-18, 20-22) and surface (5-8) type code, altitudes unavailable / 25 ft / Gillham coded, any movement / track / status bits, a quarter of the reports followed by a non-position message of the same aircraft (velocity, identification, status, operational status, target state, type code 0, DF11, DF4) and such messages also arriving during gaps, parity-selective loss (8-67 consecutive reports lose every report of one parity), addresses independent or from one family differing in a few bits / byte order); the airborne alias family 'gap just long enough to fly k latitude / m longitude zones (+-40 km) at <= 690 kt, then airborne again'; surface scenarios add landings, take-offs and the adversarial 'last airborne fix exactly k surface zones away, long gap, then surface' family, with a receiver reference within 36 NM of every surface site and |lat| <= 80; 'hidden reference' scenarios are surface scenarios in which the decoder is given no receiver position at all; 'low altitude' scenarios put every aircraft on one common site, give airborne reports within 15 NM of it altitudes below 1000 ft and let the decoder move the receiver reference to such fixes (as decode1090 always does). Frames from the independent encoder through Message::try_from and decode_positions; and as a JSONL file through the real decode1090 binary (its own loop around decode_position) and, split into chunks, through the Python binding's decode_1090t_vec (positions within 25 m and equal to the library's). End to end: 1-4 slow aircraft (<= 100 kt, airborne within 100 NM / on the ground within 30 NM of their receiver) are served to the real jet1090 binary over one or two Beast TCP sources with receiver references far apart; every position it prints, and every position its /all table holds, must be within 25 m of a position that aircraft reported. Oracle: every attached position within 25 m of the encoded one; per-aircraft outputs bit-identical with and without the other aircraft (fixed reference). Non-trivial = history with >= 1 positioned report and (a gap > 9 s or >= 2 aircraft); distinct by hash of the report list.");
     ctx.assume("speeds <= 700 kt along great circles (rhumb lines along the 87th parallel); receiver reference fixed (update_reference = None) except in the 'low altitude' scenarios, where every fix that can move it lies within 15 NM of the one site all surface traffic is on");
     ctx.assume("surface aircraft are stationary during gaps, so the 40 NM premise of the property stays true");
     let st = Stats { reports: AtomicU64::new(0), positioned: AtomicU64::new(0), surface_positioned: AtomicU64::new(0), reference_moves: AtomicU64::new(0), fillers: AtomicU64::new(0) };
@@ -872,6 +1000,19 @@ pub fn run(ctx: &Ctx) {
             std::process::exit(2);
         }
     }
+    // jet1090's own loop (anchor crates/jet1090/src/main.rs), end to end over TCP
+    match crate::e2e::Env::from_env() {
+        Some(env) => {
+            let n = ctx.tier.pick(48u32, 800u32);
+            (0..shards).into_par_iter().for_each(|s| {
+                run_prop(ctx, &format!("e2e-{s}"), n / shards, e2e_case(), |c| check_e2e(ctx, &env, c, &format!("c06-{s}")));
+            });
+        }
+        None => {
+            eprintln!("INCONCLUSIVE: JET1090_BIN / VERIF_E2E_CACHE are not set (run through ./check)");
+            std::process::exit(2);
+        }
+    }
     let (r, p, sp) = (st.reports.load(Ordering::Relaxed), st.positioned.load(Ordering::Relaxed), st.surface_positioned.load(Ordering::Relaxed));
     ctx.set_extra("reports_fed", json!(r));
     ctx.set_extra("reports_positioned", json!(p));
@@ -925,6 +1066,17 @@ pub fn replay(ctx: &Ctx, v: &Value) {
             std::process::exit(2);
         };
         ctx.judge(check_cli_reports(ctx, &bin, reference, lowalt, &reports, v));
+        return;
+    }
+    if v["kind"] == "e2e" {
+        let Some(env) = crate::e2e::Env::from_env() else {
+            eprintln!("INCONCLUSIVE: JET1090_BIN / VERIF_E2E_CACHE are not set (replay through ./check)");
+            std::process::exit(2);
+        };
+        let sc = crate::e2e::scenario_of(&v["scenario"]);
+        let truth: std::collections::BTreeMap<String, (f64, f64, bool)> = v["truth"].as_array().map(|a| a.iter().map(|t| (t[0].as_str().unwrap_or("").to_string(), (t[1].as_f64().unwrap_or(0.0), t[2].as_f64().unwrap_or(0.0), t[3].as_bool().unwrap_or(false)))).collect()).unwrap_or_default();
+        ctx.eval();
+        ctx.judge(replay_e2e(ctx, &env, &sc, &truth, v, "c06-replay"));
         return;
     }
     if v["via"] == "python" {
